@@ -2,6 +2,7 @@ import PiqpProofs.Basic
 import PiqpModel.Control
 import Mathlib.Tactic.Linarith
 import Mathlib.Tactic.Ring
+import Mathlib.Tactic.LinearCombination
 import Mathlib.Tactic.NormNum
 import Mathlib.Data.Rat.Defs
 import Mathlib.Algebra.BigOperators.Ring.Finset
@@ -183,6 +184,93 @@ theorem recession_sound (q : QP K n p m) (x0 d : Fin n → K) (hR : Recession q 
     have := (div_lt_iff₀ hpos).mp h1
     linarith
   linarith
+
+/-- an exact KKT point of the QP (multipliers `y` free, `z, wl, wu ≥ 0`, complementary) -/
+structure KKTPoint (q : QP K n p m) (x : Fin n → K) (y : Fin p → K) (z : Fin m → K) (wl wu : Fin n → K) : Prop where
+  feas : q.Feasible x
+  z_nonneg : ∀ i, 0 ≤ z i
+  wl_nonneg : ∀ j, 0 ≤ wl j
+  wu_nonneg : ∀ j, 0 ≤ wu j
+  wl_absent : ∀ j, q.lb j = none → wl j = 0
+  wu_absent : ∀ j, q.ub j = none → wu j = 0
+  stat : ∀ j, (∑ k, q.P j k * x k) + q.c j + (∑ i, q.A i j * y i) + (∑ i, q.G i j * z i) - wl j + wu j = 0
+  compG : ∀ i, z i * (q.h i - ∑ j, q.G i j * x j) = 0
+  compL : ∀ j l, q.lb j = some l → wl j * (x j - l) = 0
+  compU : ∀ j u, q.ub j = some u → wu j * (u - x j) = 0
+
+/-- **C03 ground truth, the third class.** For a symmetric positive semidefinite `P`, an exact KKT point is a global
+    minimiser: the certificate with which the classifier declares a problem "has an optimal solution". -/
+theorem kkt_sufficient (q : QP K n p m) (hsym : ∀ i j, q.P i j = q.P j i)
+    (hpsd : ∀ v : Fin n → K, 0 ≤ ∑ i, v i * ∑ j, q.P i j * v j)
+    (x : Fin n → K) (y : Fin p → K) (z : Fin m → K) (wl wu : Fin n → K) (hk : KKTPoint q x y z wl wu)
+    (x' : Fin n → K) (hf : q.Feasible x') : q.obj x ≤ q.obj x' := by
+  obtain ⟨hA, hG, hl, hu⟩ := hk.feas
+  obtain ⟨hA', hG', hl', hu'⟩ := hf
+  set d : Fin n → K := fun j => x' j - x j with hd
+  -- obj x' - obj x = g·d + ½ dᵀPd with g = Px + c
+  have hquad : q.obj x' = q.obj x + (∑ j, ((∑ k, q.P j k * x k) + q.c j) * d j) + (1 / 2) * ∑ i, d i * ∑ j, q.P i j * d j := by
+    unfold QP.obj
+    have e1 : ∀ i, ∑ j, q.P i j * x' j = (∑ j, q.P i j * x j) + ∑ j, q.P i j * d j := by
+      intro i; rw [← Finset.sum_add_distrib]; exact Finset.sum_congr rfl fun j _ => by simp only [hd]; ring
+    have e2 : ∑ i, x' i * ∑ j, q.P i j * x' j =
+        (∑ i, x i * ∑ j, q.P i j * x j) + (∑ i, x i * ∑ j, q.P i j * d j) + (∑ i, d i * ∑ j, q.P i j * x j) + ∑ i, d i * ∑ j, q.P i j * d j := by
+      simp only [e1]
+      rw [← Finset.sum_add_distrib, ← Finset.sum_add_distrib, ← Finset.sum_add_distrib]
+      exact Finset.sum_congr rfl fun i _ => by simp only [hd]; ring
+    have e3 : ∑ i, x i * ∑ j, q.P i j * d j = ∑ i, d i * ∑ j, q.P i j * x j := by
+      simp only [Finset.mul_sum]
+      rw [Finset.sum_comm]
+      exact Finset.sum_congr rfl fun j _ => Finset.sum_congr rfl fun i _ => by rw [hsym i j]; ring
+    have e4 : ∑ j, q.c j * x' j = (∑ j, q.c j * x j) + ∑ j, q.c j * d j := by
+      rw [← Finset.sum_add_distrib]; exact Finset.sum_congr rfl fun j _ => by simp only [hd]; ring
+    have e5 : ∑ j, ((∑ k, q.P j k * x k) + q.c j) * d j = (∑ i, d i * ∑ j, q.P i j * x j) + ∑ j, q.c j * d j := by
+      rw [← Finset.sum_add_distrib]; exact Finset.sum_congr rfl fun j _ => by ring
+    rw [e2, e3, e4, e5]; ring
+  -- g·d = -(Aᵀy + Gᵀz - wl + wu)·d ≥ 0
+  have hg : ∑ j, ((∑ k, q.P j k * x k) + q.c j) * d j =
+      -(∑ j, (∑ i, q.A i j * y i) * d j) - (∑ j, (∑ i, q.G i j * z i) * d j) + (∑ j, wl j * d j) - ∑ j, wu j * d j := by
+    rw [← Finset.sum_neg_distrib, ← Finset.sum_sub_distrib, ← Finset.sum_add_distrib, ← Finset.sum_sub_distrib]
+    refine Finset.sum_congr rfl fun j _ => ?_
+    have := hk.stat j
+    linear_combination (d j) * this
+  have hAd : ∑ j, (∑ i, q.A i j * y i) * d j = 0 := by
+    simp only [Finset.sum_mul]
+    rw [Finset.sum_comm]
+    refine Finset.sum_eq_zero fun i _ => ?_
+    have : ∑ j, q.A i j * y i * d j = y i * ((∑ j, q.A i j * x' j) - ∑ j, q.A i j * x j) := by
+      rw [← Finset.sum_sub_distrib, Finset.mul_sum]; exact Finset.sum_congr rfl fun j _ => by simp only [hd]; ring
+    rw [this, hA i, hA' i]; ring
+  have hGd : ∑ j, (∑ i, q.G i j * z i) * d j ≤ 0 := by
+    simp only [Finset.sum_mul]
+    rw [Finset.sum_comm]
+    refine Finset.sum_nonpos fun i _ => ?_
+    have : ∑ j, q.G i j * z i * d j = z i * ((∑ j, q.G i j * x' j) - q.h i) + z i * (q.h i - ∑ j, q.G i j * x j) := by
+      have : ∑ j, q.G i j * z i * d j = z i * ((∑ j, q.G i j * x' j) - ∑ j, q.G i j * x j) := by
+        rw [← Finset.sum_sub_distrib, Finset.mul_sum]; exact Finset.sum_congr rfl fun j _ => by simp only [hd]; ring
+      rw [this]; ring
+    rw [this, hk.compG i, add_zero]
+    exact mul_nonpos_of_nonneg_of_nonpos (hk.z_nonneg i) (by linarith [hG' i])
+  have hwl : 0 ≤ ∑ j, wl j * d j := by
+    refine Finset.sum_nonneg fun j _ => ?_
+    cases hlb : q.lb j with
+    | none => rw [hk.wl_absent j hlb]; simp
+    | some l =>
+      have h1 := hk.compL j l hlb
+      have : wl j * d j = wl j * (x' j - l) - wl j * (x j - l) := by simp only [hd]; ring
+      rw [this, h1, sub_zero]
+      exact mul_nonneg (hk.wl_nonneg j) (by linarith [hl' j l hlb])
+  have hwu : ∑ j, wu j * d j ≤ 0 := by
+    refine Finset.sum_nonpos fun j _ => ?_
+    cases hub : q.ub j with
+    | none => rw [hk.wu_absent j hub]; simp
+    | some u =>
+      have h1 := hk.compU j u hub
+      have : wu j * d j = wu j * (u - x j) - wu j * (u - x' j) := by simp only [hd]; ring
+      rw [this, h1, zero_sub]
+      exact neg_nonpos.mpr (mul_nonneg (hk.wu_nonneg j) (by linarith [hu' j u hub]))
+  have hp := hpsd d
+  rw [hquad, hg, hAd]
+  nlinarith [hp]
 
 /-- non-vacuity: `1 ≤ x ≤ 0` has the Farkas certificate `w_lb = w_ub = 1` -/
 example : Farkas (K := ℚ) (n := 1) (p := 0) (m := 0)
